@@ -88,7 +88,7 @@ func NewContracts() *Contracts {
 
 var defRe = regexp.MustCompile(`^(\w+)\((.*?)\)\s*([\w\[\]]+)?\s*=\s*(.*)$`)
 var labelRe = regexp.MustCompile(`^([A-Za-z0-9_\-\.]+):\s+(.*)$`)
-var clauseKinds = map[string]bool{"requires": true, "ensures": true, "invariant": true, "decreases": true, "modifies": true, "callsite": true}
+var clauseKinds = map[string]bool{"axiom": true, "requires": true, "ensures": true, "invariant": true, "decreases": true, "modifies": true, "callsite": true}
 
 func (c *Contracts) errf(file string, line int, f string, a ...interface{}) {
 	c.Errs = append(c.Errs, fmt.Sprintf("%s:%d: %s", file, line, fmt.Sprintf(f, a...)))
@@ -368,6 +368,10 @@ func (c *Contracts) LoadFile(path, source string) error {
 		case "requires":
 			curF.Requires = append(curF.Requires, cl)
 		case "ensures":
+			curF.Ensures = append(curF.Ensures, cl)
+		case "axiom":
+			// assumed at call sites, never proved from the body (listed as an assumption in the evidence):
+			// used to name a deterministic function's result by an uninterpreted spec function
 			curF.Ensures = append(curF.Ensures, cl)
 		case "modifies":
 			curF.Modifies = append(curF.Modifies, cl)
